@@ -14,7 +14,7 @@ EXPLANATION = (
     "sequences of literals and stack symbols; glyphs are validated by a round trip through the writer's "
     "OPERATOR_MAP/OPERATOR_INFIX_MAP; n-ary handlers must restore argument order with exactly one reversal"
 )
-TRUSTED = ["python ast", "TSCEArchives descriptor (ASTNodeType enum)", "generated/functionmap.py"]
+TRUSTED = ["python ast", "TSCEArchives descriptor (ASTNodeType enum)", "src/numbers_parser/generated/functionmap.py"]
 
 BINARY_NODES = {
     "ADDITION_NODE", "SUBTRACTION_NODE", "MULTIPLICATION_NODE", "DIVISION_NODE", "POWER_NODE",
@@ -485,7 +485,30 @@ def _check_date_value(repo, rep, m, h, base_txt):
            key=f"C08.R5@{h}:value")
 
 
+def check_function_names(repo, rep):
+    """The name printed for a stored function id is the one the confirmed tree prints (nvstatic/reference/tables.json; the
+    repository holds no second source for these pairs, so the confirmed pairs are the reference; new ids may be added)."""
+    import json
+    import os
+    ref_path = os.path.join(os.path.dirname(os.path.dirname(os.path.abspath(__file__))), "reference", "tables.json")
+    try:
+        with open(ref_path, encoding="utf-8") as fh:
+            ref = {int(k): v for k, v in json.load(fh)["FUNCTION_MAP"].items()}
+    except (OSError, KeyError, ValueError) as e:
+        raise AnalysisError(f"reference table of function names not readable: {e}") from e
+    node = repo.module_assign("src/numbers_parser/generated/functionmap.py", "FUNCTION_MAP")
+    try:
+        cur = ast.literal_eval(node)
+    except Exception as e:  # noqa: BLE001
+        raise AnalysisError(f"generated/functionmap.py: FUNCTION_MAP is not a literal table ({e})") from e
+    changed = [(i, ref[i], cur.get(i)) for i in sorted(ref) if cur.get(i) != ref[i]]
+    detail = "; ".join(f"stored function id {i} is printed as {c!r} (confirmed: {r!r})" for i, r, c in changed[:4])
+    rep.ob("C08.R4", node, f"function names: the {len(ref)} confirmed id -> name pairs are unchanged ({len(cur) - len(set(cur) & set(ref))} new ids)", not changed,
+           detail + (": a formula that calls such a function is shown with another function's name" if changed else ""), key="C08.R4@function-map")
+
+
 def run(repo, rep, tier):
+    check_function_names(repo, rep)
     tree = repo.tree("formula.py")
     nfm_node = repo.module_assign("formula.py", "NODE_FUNCTION_MAP")
     nfm = try_const(nfm_node)
@@ -812,6 +835,8 @@ def run(repo, rep, tier):
 
 
 VARIANTS = [
+    M("function-map-two-names-exchanged", "src/numbers_parser/generated/functionmap.py", '    333: "BITLSHIFT",\n    334: "BITRSHIFT",', '    333: "BITRSHIFT",\n    334: "BITLSHIFT",', "C08.R4"),
+    T("function-map-new-id-added", "src/numbers_parser/generated/functionmap.py", '    336: "SWITCH",\n}', '    336: "SWITCH",\n    337: "CONCAT",\n}'),
     T("number-to-str-translate-ifexp", "formula.py", '    if "e" in v_str:\n        number, exp = v_str.split("e")\n        number = re.sub(r"[,-.]", "", number)\n        zeroes = "0" * (abs(int(exp)) - 1)\n        if int(exp) > 0:\n            return f"{number}{zeroes}"\n        return f"0.{zeroes}{number}"\n    return v_str\n', '    if "e" not in v_str:\n        return v_str\n\n    mantissa, exp = v_str.split("e")\n    digits = mantissa.translate(str.maketrans("", "", \',-.\'))\n    exponent = int(exp)\n    zeroes = "0" * (abs(exponent) - 1)\n    return f"{digits}{zeroes}" if exponent > 0 else f"0.{zeroes}{digits}"\n'),
     M("number-to-str-translate-keeps-point", "formula.py", '    if "e" in v_str:\n        number, exp = v_str.split("e")\n        number = re.sub(r"[,-.]", "", number)\n        zeroes = "0" * (abs(int(exp)) - 1)\n        if int(exp) > 0:\n            return f"{number}{zeroes}"\n        return f"0.{zeroes}{number}"\n    return v_str\n', '    if "e" not in v_str:\n        return v_str\n\n    mantissa, exp = v_str.split("e")\n    digits = mantissa.translate(str.maketrans("", "", \',-\'))\n    exponent = int(exp)\n    zeroes = "0" * (abs(exponent) - 1)\n    return f"{digits}{zeroes}" if exponent > 0 else f"0.{zeroes}{digits}"\n', "C08.R5"),
     M("number-to-str-small-zero-count", "formula.py", '    if "e" in v_str:\n        number, exp = v_str.split("e")\n        number = re.sub(r"[,-.]", "", number)\n        zeroes = "0" * (abs(int(exp)) - 1)\n        if int(exp) > 0:\n            return f"{number}{zeroes}"\n        return f"0.{zeroes}{number}"\n    return v_str\n', '    if "e" not in v_str:\n        return v_str\n\n    mantissa, exp = v_str.split("e")\n    digits = mantissa.translate(str.maketrans("", "", \',-.\'))\n    exponent = int(exp)\n    zeroes = "0" * (abs(exponent))\n    return f"{digits}{zeroes}" if exponent > 0 else f"0.{zeroes}{digits}"\n', "C08.R5"),
